@@ -31,6 +31,7 @@ import (
 
 // packages (directories) that contain code reachable from the roots
 var dirs = []string{
+	"types", // teletypes.EmitTypedEvent (called by the proposal handlers)
 	"x/xibc", "x/xibc/types", "x/xibc/core/host",
 	"x/xibc/core/client", "x/xibc/core/client/keeper", "x/xibc/core/client/types",
 	"x/xibc/core/packet", "x/xibc/core/packet/types",
